@@ -43,6 +43,7 @@ Lemma four_eq : four = (1 + 1) * (1 + 1). Proof. apply Qc_is_canon. reflexivity.
 Lemma six_eq : six = (1 + 1) * (1 + 1 + 1). Proof. apply Qc_is_canon. reflexivity. Qed.
 Lemma opo_neq0 : 1 + 1 <> 0. Proof. intro K. apply (f_equal this) in K. vm_compute in K. discriminate K. Qed.
 Lemma opopo_neq0 : 1 + 1 + 1 <> 0. Proof. intro K. apply (f_equal this) in K. vm_compute in K. discriminate K. Qed.
+Ltac qc_neq0 := repeat split; try (let K := fresh in intro K; apply (f_equal this) in K; vm_compute in K; discriminate K).
 Lemma lt_minus_neq0 x0 x1 : x0 < x1 -> x1 - x0 <> 0.
 Proof.
   intros H K. apply (Qclt_not_eq _ _ H). symmetry. transitivity (x1 - x0 + x0); [ring | rewrite K; ring].
@@ -925,4 +926,448 @@ Proof.
     split; [rewrite map_length; auto|]. split; [|discriminate]. intros _.
     exists raw, lo, hi, tot. repeat split; auto. rewrite qsum_scale. field. auto.
   - intros H. inversion H; subst. split; auto. split; [discriminate | auto].
+Qed.
+
+(* ------------------------------------------------------------------ *)
+(* (d) bins of a non-negative spectrum are non-negative (trapezoid rule, any increasing centres) *)
+Lemma chord_nonneg x0 x1 x y0 y1 : x0 <= x -> x < x1 -> 0 <= y0 -> 0 <= y1 ->
+  0 <= y0 + ((y1 - y0) / (x1 - x0)) * (x - x0).
+Proof.
+  intros. qc2q.
+  set (d := (this x1 - this x0)%Q) in *.
+  assert (Hd : (0 < d)%Q) by (unfold d; lra).
+  assert (Hi : (0 < / d)%Q) by (apply Qinv_lt_0_compat; auto).
+  assert (Hm : (/ d * d == 1)%Q) by (rewrite Qmult_comm; apply Qmult_inv_r; lra).
+  set (i := (/ d)%Q) in *. clearbody i.
+  assert (U0 : (0 <= i * (this x - this x0))%Q) by nra.
+  assert (U1 : (i * (this x - this x0) <= 1)%Q) by (unfold d in *; nra).
+  set (u := (i * (this x - this x0))%Q) in *.
+  setoid_replace ((this y1 - this y0) * i * (this x - this x0))%Q with ((this y1 - this y0) * u)%Q by (unfold u; ring).
+  clearbody u. nra.
+Qed.
+Lemma interp_from_nonneg w v x : length w = length v -> Forall (fun y => 0 <= y) v ->
+  (forall x0, hd_error w = Some x0 -> x0 <= x) -> 0 <= interp_from w v x.
+Proof.
+  revert v. induction w as [|x0 wt IH]; intros v L N Hx; [apply Qcle_refl|].
+  destruct v as [|y0 vt]; [discriminate|]. simpl in L. injection L as L. inversion N; subst.
+  destruct wt as [|x1 wt'].
+  - simpl. destruct (qeqb x x0); [auto | apply Qcle_refl].
+  - destruct vt as [|y1 vt']; [discriminate|].
+    change (interp_from (x0 :: x1 :: wt') (y0 :: y1 :: vt') x)
+      with (if qlt x x1 then y0 + ((y1 - y0) / (x1 - x0)) * (x - x0) else interp_from (x1 :: wt') (y1 :: vt') x).
+    destruct (qlt x x1) eqn:E; qb.
+    + inversion H2; subst. apply chord_nonneg; auto.
+    + apply IH; auto. intros x' Hx'. inversion Hx'; subst. auto.
+Qed.
+Lemma interp_nonneg w v x : length w = length v -> Forall (fun y => 0 <= y) v -> 0 <= interp w v x.
+Proof.
+  intros L N. unfold interp. destruct w as [|x0 wt]; [apply Qcle_refl|].
+  destruct (qlt x x0) eqn:E; [apply Qcle_refl|]. qb. apply interp_from_nonneg; auto.
+  intros x' Hx'. inversion Hx'; subst. auto.
+Qed.
+
+Fixpoint nondecr (w : list Qc) : Prop :=
+  match w with a :: ((b :: _) as t) => a <= b /\ nondecr t | _ => True end.
+Lemma increasing_nondecr w : increasing w -> nondecr w.
+Proof. induction w as [|a [|b t] IH]; simpl; auto. intros [H1 H2]. split; [apply Qclt_le_weak; auto | apply IH; auto]. Qed.
+Lemma half_nonneg_prod f0 f1 x0 x1 : 0 <= f0 -> 0 <= f1 -> x0 <= x1 -> 0 <= (1 / two) * (f0 + f1) * (x1 - x0).
+Proof. intros. qc2q. nra. Qed.
+Lemma chain_trapz_nonneg p : nondecr (map fst p) -> Forall (fun y => 0 <= y) (map snd p) ->
+  Forall (fun y => 0 <= y) (chain_trapz p).
+Proof.
+  induction p as [|[x0 f0] [|[x1 f1] t] IH]; intros S N; try constructor.
+  - simpl in S, N. destruct S as [S1 S2]. inversion N; subst. inversion H2; subst. apply half_nonneg_prod; auto.
+  - apply IH; [apply S | inversion N; auto].
+Qed.
+Lemma trapz_term_nonneg f0 f1 x0 x1 : 0 <= f0 -> 0 <= f1 -> x0 <= x1 -> 0 <= (x1 - x0) * (f1 + f0) / two.
+Proof. intros. qc2q. nra. Qed.
+Lemma trapz_nonneg p : nondecr (map fst p) -> Forall (fun y => 0 <= y) (map snd p) -> 0 <= trapz p.
+Proof.
+  induction p as [|[x0 f0] [|[x1 f1] t] IH]; intros S N; try apply Qcle_refl.
+  change (trapz ((x0, f0) :: (x1, f1) :: t)) with ((x1 - x0) * (f1 + f0) / two + trapz ((x1, f1) :: t)).
+  simpl in S, N. destruct S as [S1 S2]. inversion N; subst. inversion H2; subst.
+  replace 0 with (0 + 0) by ring. apply Qcplus_le_compat; [apply trapz_term_nonneg; auto | apply IH; auto].
+Qed.
+
+(* the bin edges of increasing centres are non-decreasing *)
+Lemma mid_le_mid a b c : a < b -> b < c -> a + (b - a) / two <= b + (c - b) / two.
+Proof. intros. qc2q. lra. Qed.
+Lemma mid_le_right a b : a < b -> a + (b - a) / two <= b.
+Proof. intros. qc2q. lra. Qed.
+Lemma left_le_mid a b : a < b -> a <= a + (b - a) / two.
+Proof. intros. qc2q. lra. Qed.
+Lemma mids_then_end_sorted a t z : increasing (a :: t) -> last (a :: t) 0 <= z -> nondecr (mids (a :: t) ++ [z]).
+Proof.
+  revert a. induction t as [|b t IH]; intros a I Hz; [simpl; auto|].
+  destruct I as [I1 I2].
+  change (mids (a :: b :: t)) with ((a + (b - a) / two) :: mids (b :: t)).
+  change (last (a :: b :: t) 0) with (last (b :: t) 0) in Hz.
+  specialize (IH b I2 Hz). destruct t as [|c t'].
+  - simpl in *. split; auto. eapply Qcle_trans; [apply mid_le_right; auto | auto].
+  - change (mids (b :: c :: t')) with ((b + (c - b) / two) :: mids (c :: t')) in *.
+    simpl app in *. split; auto. apply mid_le_mid; auto. apply I2.
+Qed.
+Lemma last_halfdiffs_nonneg c : increasing c -> 0 <= last (halfdiffs c) 0.
+Proof.
+  induction c as [|a [|b t] IH]; intros I; try apply Qcle_refl. destruct I as [I1 I2].
+  change (halfdiffs (a :: b :: t)) with ((b - a) / two :: halfdiffs (b :: t)).
+  destruct t as [|c t'].
+  - simpl. qc2q. lra.
+  - change (halfdiffs (b :: c :: t')) with ((c - b) / two :: halfdiffs (c :: t')) in *.
+    change (last ((b - a) / two :: (c - b) / two :: halfdiffs (c :: t')) 0) with (last ((c - b) / two :: halfdiffs (c :: t')) 0).
+    apply IH; auto.
+Qed.
+Lemma bin_edges_trapz_sorted e c : increasing c -> (2 <= length c)%nat -> nondecr (bin_edges_trapz e c).
+Proof.
+  intros I L. destruct c as [|a [|b t]]; simpl in L; try lia.
+  pose proof (last_halfdiffs_nonneg _ I) as HL.
+  assert (M : forall z, last (a :: b :: t) 0 <= z -> forall e0, e0 <= a + (b - a) / two ->
+              nondecr (e0 :: mids (a :: b :: t) ++ [z])).
+  { intros z Hz e0 He. pose proof (mids_then_end_sorted a (b :: t) z I Hz) as S.
+    change (mids (a :: b :: t)) with ((a + (b - a) / two) :: mids (b :: t)) in *. simpl app in *. split; auto. }
+  destruct I as [I1 I2]. unfold bin_edges_trapz. destruct e.
+  - apply M.
+    + set (l := last (a :: b :: t) 0) in *. set (h := last (halfdiffs (a :: b :: t)) 0) in *. clearbody l h. qc2q. lra.
+    + change (hd 0 (halfdiffs (a :: b :: t))) with ((b - a) / two). cbn [hd]. qc2q. lra.
+  - apply M; [apply Qcle_refl|]. cbn [hd]. apply left_le_mid; auto.
+Qed.
+
+Lemma Forall_map_nonneg_interp w v x : length w = length v -> Forall (fun y => 0 <= y) v ->
+  Forall (fun y => 0 <= y) (map (interp w v) x).
+Proof. intros. apply Forall_forall. intros y Hy. apply in_map_iff in Hy. destruct Hy as (z & <- & _). apply interp_nonneg; auto. Qed.
+Lemma qsum_nonneg l : Forall (fun y => 0 <= y) l -> 0 <= qsum l.
+Proof. induction 1; simpl; [apply Qcle_refl|]. replace 0 with (0 + 0) by ring. apply Qcplus_le_compat; auto. Qed.
+Lemma scale_nonneg x tot sb : 0 <= x -> 0 <= tot -> 0 <= sb -> sb <> 0 -> 0 <= x * (tot / sb).
+Proof.
+  intros H1 H2 H3 H4. assert (P : 0 < sb) by (destruct (Qcle_lt_or_eq _ _ H3); auto; congruence).
+  qc2q. assert (Hi : (0 < / this sb)%Q) by (apply Qinv_lt_0_compat; auto).
+  set (i := (/ this sb)%Q) in *. clearbody i. assert (0 <= this tot * i)%Q by nra.
+  set (u := (this tot * i)%Q) in *. clearbody u. nra.
+Qed.
+
+Lemma raw_bins_trapz_nonneg s c e b : length (wave s) = length (value s) -> Forall (fun y => 0 <= y) (value s) ->
+  increasing c -> raw_bins s c Trapz e = Ok b -> Forall (fun y => 0 <= y) b.
+Proof.
+  intros L N I. unfold raw_bins. destruct (length c <? 2)%nat eqn:E; [discriminate|]. apply Nat.ltb_ge in E.
+  unfold sample. destruct (length (wave s) =? 0)%nat; [discriminate|]. destruct (negb _); [discriminate|]. simpl.
+  intros H. inversion H; subst. clear H. apply chain_trapz_nonneg.
+  - rewrite map_fst_combine by (rewrite map_length; reflexivity). apply bin_edges_trapz_sorted; auto.
+  - rewrite map_snd_combine by (rewrite map_length; reflexivity). apply Forall_map_nonneg_interp; auto.
+Qed.
+Lemma bin_trapz_nonneg s c e pp b : wf s -> Forall (fun y => 0 <= y) (value s) -> increasing c ->
+  bin s c Trapz e pp = Ok (Some b) -> Forall (fun y => 0 <= y) b.
+Proof.
+  intros W N I H. destruct (bin_spec _ _ _ _ _ _ H) as (_ & Hp & Hn). destruct pp.
+  - destruct (Hp eq_refl) as (raw & lo & hi & tot & R & _ & _ & T & Z & -> & _).
+    pose proof (raw_bins_trapz_nonneg _ _ _ _ (proj2 (proj2 W)) N I R) as RN.
+    assert (TN : 0 <= tot).
+    { unfold integrate in T. simpl in T. inversion T; subst. apply trapz_nonneg.
+      - apply increasing_nondecr. unfold select. rewrite <- filter_map_fst. apply increasing_SS, SS_filter, increasing_SS.
+        rewrite (wf_wave _ W). apply W.
+      - apply Forall_forall. intros y Hy. apply in_map_iff in Hy. destruct Hy as ([x y'] & <- & Hq).
+        apply filter_In in Hq. destruct Hq as [Hq _]. apply (in_map snd) in Hq. rewrite (wf_value _ W) in Hq.
+        rewrite Forall_forall in N. apply N. exact Hq. }
+    apply Forall_forall. intros y Hy. apply in_map_iff in Hy. destruct Hy as (x & <- & Hx).
+    apply scale_nonneg; auto. + rewrite Forall_forall in RN. auto. + apply qsum_nonneg; auto.
+  - eapply raw_bins_trapz_nonneg; eauto. apply W.
+Qed.
+
+(* ------------------------------------------------------------------ *)
+(* (d) bins are exact for a spectrum that is one straight line over the binned range *)
+Lemma chord_line al be x0 x1 x : x0 < x1 ->
+  (al * x0 + be) + (((al * x1 + be) - (al * x0 + be)) / (x1 - x0)) * (x - x0) = al * x + be.
+Proof. intros H. field. apply lt_minus_neq0; auto. Qed.
+Lemma interp_from_line al be w v x : increasing w -> length w = length v ->
+  (forall a y, In (a, y) (combine w v) -> y = al * a + be) ->
+  (forall x0, hd_error w = Some x0 -> x0 <= x) -> x <= last w 0 -> w <> [] ->
+  interp_from w v x = al * x + be.
+Proof.
+  revert v. induction w as [|x0 wt IH]; intros v I L H Hx Hl Hn; [congruence|].
+  destruct v as [|y0 vt]; [discriminate|]. simpl in L. injection L as L.
+  assert (E0 : y0 = al * x0 + be) by (apply H; left; auto).
+  destruct wt as [|x1 wt'].
+  - destruct vt; [|discriminate]. simpl in *. assert (x = x0) by (apply Qcle_antisym; auto).
+    subst x. rewrite qeqb_refl. auto.
+  - destruct vt as [|y1 vt']; [discriminate|]. destruct I as [I1 I2].
+    assert (E1 : y1 = al * x1 + be) by (apply H; right; left; auto).
+    change (interp_from (x0 :: x1 :: wt') (y0 :: y1 :: vt') x)
+      with (if qlt x x1 then y0 + ((y1 - y0) / (x1 - x0)) * (x - x0) else interp_from (x1 :: wt') (y1 :: vt') x).
+    destruct (qlt x x1) eqn:E; qb.
+    + subst y0 y1. apply chord_line; auto.
+    + apply IH; auto.
+      * intros a y Hq. apply H. right. exact Hq.
+      * intros x' Hx'. inversion Hx'; subst. auto.
+      * discriminate.
+Qed.
+Lemma interp_line al be w v x : increasing w -> length w = length v ->
+  (forall a y, In (a, y) (combine w v) -> y = al * a + be) ->
+  hd 0 w <= x -> x <= last w 0 -> w <> [] -> interp w v x = al * x + be.
+Proof.
+  intros I L H H0 H1 Hn. unfold interp. destruct w as [|x0 wt]; [congruence|]. simpl in H0.
+  apply qlt_false in H0. rewrite H0. qb. apply interp_from_line; auto.
+  intros x' Hx'. inversion Hx'; subst. auto.
+Qed.
+Lemma trapz_bin_line al be x0 x1 :
+  (1 / two) * ((al * x0 + be) + (al * x1 + be)) * (x1 - x0) = line_integral al be x0 x1.
+Proof. unfold line_integral. rewrite two_eq. field. apply opo_neq0. Qed.
+Lemma chain_trapz_line al be x : chain_trapz (combine x (map (fun t => al * t + be) x)) = line_bins al be x.
+Proof.
+  induction x as [|x0 [|x1 t] IH]; auto.
+  change (chain_trapz (combine (x0 :: x1 :: t) (map (fun t => al * t + be) (x0 :: x1 :: t))))
+    with ((1 / two) * ((al * x0 + be) + (al * x1 + be)) * (x1 - x0)
+          :: chain_trapz (combine (x1 :: t) (map (fun t => al * t + be) (x1 :: t)))).
+  rewrite IH, trapz_bin_line. reflexivity.
+Qed.
+(* Simpson: exact when the node is the middle of its two edges *)
+Fixpoint midpointed (x : list Qc) : Prop :=
+  match x with x0 :: x1 :: ((x2 :: _) as t) => x1 = (x0 + x2) / two /\ midpointed t | _ => True end.
+Lemma simps_bin_line al be x0 x2 :
+  ((x2 - x0) / six) * ((al * x0 + be) + four * (al * ((x0 + x2) / two) + be) + (al * x2 + be)) = line_integral al be x0 x2.
+Proof. unfold line_integral. rewrite two_eq, four_eq, six_eq. field. qc_neq0. Qed.
+Lemma chain_simps_line al be x : midpointed x ->
+  chain_simps (combine x (map (fun t => al * t + be) x)) = line_bins2 al be x.
+Proof.
+  assert (G : forall n x, (length x <= n)%nat -> midpointed x ->
+              chain_simps (combine x (map (fun t => al * t + be) x)) = line_bins2 al be x).
+  { induction n as [|n IH]; intros x0 Hn M.
+    - destruct x0; [reflexivity | simpl in Hn; lia].
+    - destruct x0 as [|a [|b [|c t]]]; try reflexivity. destruct M as [M1 M2].
+      change (chain_simps (combine (a :: b :: c :: t) (map (fun t => al * t + be) (a :: b :: c :: t))))
+        with (((c - a) / six) * ((al * a + be) + four * (al * b + be) + (al * c + be))
+              :: chain_simps (combine (c :: t) (map (fun t => al * t + be) (c :: t)))).
+      change (line_bins2 al be (a :: b :: c :: t)) with (line_integral al be a c :: line_bins2 al be (c :: t)).
+      rewrite IH; auto; [|simpl in *; lia]. rewrite M1, simps_bin_line. reflexivity. }
+  intros. eapply G; eauto.
+Qed.
+
+Lemma raw_bins_line s c r e al be : wf s -> wave s <> [] -> (2 <= length c)%nat ->
+  (forall a y, In (a, y) (samples s) -> y = al * a + be) ->
+  let x := match r with Trapz => bin_edges_trapz e c | Simps => bin_nodes_simps e c end in
+  (forall t, In t x -> hd 0 (wave s) <= t /\ t <= last (wave s) 0) ->
+  (r = Simps -> midpointed x) ->
+  raw_bins s c r e = Ok (match r with Trapz => line_bins al be x | Simps => line_bins2 al be x end).
+Proof.
+  intros (W1 & W2 & W3) Hn L H x Hx Hm. unfold raw_bins.
+  replace (length c <? 2)%nat with false by (symmetry; apply Nat.ltb_ge; auto).
+  assert (S : sample s x = Ok (map (fun t => al * t + be) x)).
+  { unfold sample. destruct (wave s) as [|w0 wt] eqn:Ew; [congruence|]. simpl Nat.eqb at 1. cbv iota.
+    rewrite <- Ew in *. rewrite W3, Nat.eqb_refl. simpl. f_equal. apply map_ext_in. intros t Ht.
+    destruct (Hx t Ht). apply interp_line; auto. }
+  destruct r; fold x; rewrite S; simpl; f_equal.
+  - apply chain_trapz_line.
+  - apply chain_simps_line. auto.
+Qed.
+
+(* uniformly spaced centres: every Simpson node is the middle of its bin (symmetric ends) *)
+Lemma last_halfdiffs_uniform h c : uniform_step h c -> (2 <= length c)%nat -> last (halfdiffs c) 0 = h / two.
+Proof.
+  induction c as [|a [|b t] IH]; intros U L; simpl in L; try lia.
+  change (halfdiffs (a :: b :: t)) with ((b - a) / two :: halfdiffs (b :: t)). destruct U as [U1 U2].
+  destruct t as [|c t'].
+  - simpl. rewrite U1. reflexivity.
+  - change (halfdiffs (b :: c :: t')) with ((c - b) / two :: halfdiffs (c :: t')) in *.
+    change (last ((b - a) / two :: (c - b) / two :: halfdiffs (c :: t')) 0) with (last ((c - b) / two :: halfdiffs (c :: t')) 0).
+    apply IH; auto. simpl. lia.
+Qed.
+Lemma mid_of_halves a h : a = ((a - h / two) + (a + h / two)) / two.
+Proof. rewrite two_eq. field. qc_neq0. Qed.
+Lemma sym_nodes_midpointed h t : forall a p z, uniform_step h (a :: t) -> p = a - h / two ->
+  z = last (a :: t) 0 + h / two -> midpointed (p :: interleave (a :: t) (mids (a :: t)) ++ [z]).
+Proof.
+  induction t as [|b t' IH]; intros a p z U Hp Hz.
+  - simpl in *. subst. split; auto. apply mid_of_halves.
+  - destruct U as [U1 U2].
+    change (mids (a :: b :: t')) with ((a + (b - a) / two) :: mids (b :: t')).
+    change (interleave (a :: b :: t') ((a + (b - a) / two) :: mids (b :: t')))
+      with (a :: (a + (b - a) / two) :: interleave (b :: t') (mids (b :: t'))).
+    change (p :: (a :: (a + (b - a) / two) :: interleave (b :: t') (mids (b :: t'))) ++ [z])
+      with (p :: a :: ((a + (b - a) / two) :: interleave (b :: t') (mids (b :: t')) ++ [z])).
+    assert (M : midpointed ((a + (b - a) / two) :: interleave (b :: t') (mids (b :: t')) ++ [z])).
+    { apply IH; auto. rewrite U1. replace b with (a + h) by (rewrite <- U1; ring). rewrite two_eq. field. qc_neq0. }
+    destruct (interleave (b :: t') (mids (b :: t')) ++ [z]) eqn:E.
+    + destruct (interleave (b :: t') (mids (b :: t'))); discriminate.
+    + split; auto. subst p. rewrite U1. apply mid_of_halves.
+Qed.
+Lemma bin_nodes_symmetric_midpointed h c : uniform_step h c -> (2 <= length c)%nat ->
+  midpointed (bin_nodes_simps Symmetric c).
+Proof.
+  intros U L. unfold bin_nodes_simps. rewrite (last_halfdiffs_uniform h c U L).
+  destruct c as [|a [|b t]]; simpl in L; try lia.
+  apply (sym_nodes_midpointed h (b :: t) a); auto.
+  change (halfdiffs (a :: b :: t)) with ((b - a) / two :: halfdiffs (b :: t)). cbn [hd]. destruct U as [-> _]. reflexivity.
+Qed.
+
+(* ... and with 'inside' ends: the two extra nodes are mid-points by construction *)
+Lemma interleave_head a t M : exists r, interleave (a :: t) M = a :: r.
+Proof. destruct M; simpl; eauto. Qed.
+Lemma insert_before_last_cons2 (a b : Qc) Y v : (2 <= length Y)%nat ->
+  insert_before_last (a :: b :: Y) v = a :: b :: insert_before_last Y v.
+Proof.
+  intros L. destruct Y as [|y0 [|y1 Y']]; simpl in L; try lia. unfold insert_before_last.
+  change (removelast (a :: b :: y0 :: y1 :: Y')) with (a :: b :: removelast (y0 :: y1 :: Y')).
+  change (last (a :: b :: y0 :: y1 :: Y') 0) with (last (y0 :: y1 :: Y') 0). reflexivity.
+Qed.
+Lemma last_cons2 (a b : Qc) Y d : (2 <= length Y)%nat -> last (a :: b :: Y) d = last Y d.
+Proof. intros L. destruct Y as [|y0 [|y1 Y']]; simpl in L; try lia. reflexivity. Qed.
+Lemma last_removelast_cons2 (a b : Qc) Y d : (2 <= length Y)%nat ->
+  last (removelast (a :: b :: Y)) d = last (removelast Y) d.
+Proof. intros L. destruct Y as [|y0 [|y1 Y']]; simpl in L; try lia. reflexivity. Qed.
+Lemma insert_before_last_head y0 y1 Y v : exists r, insert_before_last (y0 :: y1 :: Y) v = y0 :: r.
+Proof. unfold insert_before_last. change (removelast (y0 :: y1 :: Y)) with (y0 :: removelast (y1 :: Y)). simpl. eauto. Qed.
+Lemma mid_of_ends a b : a + (b - a) / two = (a + b) / two.
+Proof. rewrite two_eq. field. qc_neq0. Qed.
+Lemma inside_tail_midpointed h t : forall b mp v, uniform_step h (b :: t) -> mp = b - h / two ->
+  v = last (mp :: interleave (b :: t) (mids (b :: t))) 0
+      + (last (removelast (mp :: interleave (b :: t) (mids (b :: t)))) 0
+         - last (mp :: interleave (b :: t) (mids (b :: t))) 0) / two ->
+  midpointed (insert_before_last (mp :: interleave (b :: t) (mids (b :: t))) v).
+Proof.
+  induction t as [|c t' IH]; intros b mp v U Hp Hv.
+  - simpl in *. subst v. split; auto. rewrite mid_of_ends. rewrite two_eq. field. qc_neq0.
+  - destruct U as [U1 U2].
+    change (mids (b :: c :: t')) with ((b + (c - b) / two) :: mids (c :: t')) in *.
+    change (interleave (b :: c :: t') ((b + (c - b) / two) :: mids (c :: t')))
+      with (b :: (b + (c - b) / two) :: interleave (c :: t') (mids (c :: t'))) in *.
+    set (Y' := (b + (c - b) / two) :: interleave (c :: t') (mids (c :: t'))) in *.
+    assert (L2 : (2 <= length Y')%nat).
+    { unfold Y'. destruct (interleave_head c t' (mids (c :: t'))) as (r & ->). simpl. lia. }
+    rewrite insert_before_last_cons2 by auto.
+    assert (M : midpointed (insert_before_last Y' v)).
+    { apply IH; auto.
+      - rewrite U1. replace c with (b + h) by (rewrite <- U1; ring). rewrite two_eq. field. qc_neq0.
+      - rewrite Hv, last_cons2, last_removelast_cons2 by auto. reflexivity. }
+    assert (Hh : exists r, insert_before_last Y' v = (b + (c - b) / two) :: r).
+    { unfold Y'. destruct (interleave_head c t' (mids (c :: t'))) as (r & ->). apply insert_before_last_head. }
+    destruct Hh as (r & Er). rewrite Er in *. split; auto.
+    subst mp. rewrite U1. apply mid_of_halves.
+Qed.
+Lemma bin_nodes_inside_midpointed h c : uniform_step h c -> (2 <= length c)%nat ->
+  midpointed (bin_nodes_simps Inside c).
+Proof.
+  intros U L. unfold bin_nodes_simps. destruct c as [|a [|b t]]; simpl in L; try lia. destruct U as [U1 U2].
+  change (mids (a :: b :: t)) with ((a + (b - a) / two) :: mids (b :: t)).
+  change (interleave (a :: b :: t) ((a + (b - a) / two) :: mids (b :: t)))
+    with (a :: (a + (b - a) / two) :: interleave (b :: t) (mids (b :: t))).
+  cbv beta iota.
+  set (Y := (a + (b - a) / two) :: interleave (b :: t) (mids (b :: t))).
+  assert (L2 : (2 <= length Y)%nat).
+  { unfold Y. destruct (interleave_head b t (mids (b :: t))) as (r & ->). simpl. lia. }
+  set (v := last (a :: (a + ((a + (b - a) / two) - a) / two) :: Y) 0
+            + (last (removelast (a :: (a + ((a + (b - a) / two) - a) / two) :: Y)) 0
+               - last (a :: (a + ((a + (b - a) / two) - a) / two) :: Y) 0) / two).
+  rewrite insert_before_last_cons2 by auto.
+  assert (M : midpointed (insert_before_last Y v)).
+  { apply (inside_tail_midpointed h t b); auto.
+    - rewrite U1. replace b with (a + h) by (rewrite <- U1; ring). rewrite two_eq. field. qc_neq0.
+    - unfold v. rewrite last_cons2, last_removelast_cons2 by auto. reflexivity. }
+  assert (Hh : exists r, insert_before_last Y v = (a + (b - a) / two) :: r).
+  { unfold Y. destruct (interleave_head b t (mids (b :: t))) as (r & ->). apply insert_before_last_head. }
+  destruct Hh as (r & Er). rewrite Er in *. split; auto. apply mid_of_ends.
+Qed.
+Lemma bin_nodes_midpointed h e c : uniform_step h c -> (2 <= length c)%nat -> midpointed (bin_nodes_simps e c).
+Proof. destruct e; [apply bin_nodes_symmetric_midpointed | apply bin_nodes_inside_midpointed]. Qed.
+
+(* ------------------------------------------------------------------ *)
+(* statements as used in Properties/C15.v                              *)
+Lemma integrate_additive s lo mid hi : wf s -> In mid (wave s) -> lo <= mid -> mid <= hi ->
+  exists i1 i2 i, integrate s (Some lo) (Some mid) Trapz = Ok i1 /\ integrate s (Some mid) (Some hi) Trapz = Ok i2 /\
+                  integrate s (Some lo) (Some hi) Trapz = Ok i /\ i = i1 + i2.
+Proof.
+  intros W Hm H1 H2. unfold integrate. simpl. eexists _, _, _. repeat split.
+  apply trapz_additive; auto; rewrite (wf_wave _ W); auto. apply W.
+Qed.
+Lemma integrate_exact s lo hi : wf s ->
+  (In lo (wave s) /\ In hi (wave s) /\ lo <= hi) \/ (forall x, In x (wave s) -> lo <= x /\ x <= hi) ->
+  integrate s (Some lo) (Some hi) Trapz = Ok (pl_integral (samples s) lo hi).
+Proof.
+  intros W H. unfold integrate. simpl. f_equal.
+  assert (I : increasing (map fst (samples s))) by (rewrite (wf_wave _ W); apply W).
+  destruct H as [(H1 & H2 & H3)|H].
+  - apply trapz_is_pl_integral; auto; rewrite (wf_wave _ W); auto.
+  - apply trapz_is_pl_integral_whole; auto. intros p Hp. apply H. rewrite <- (wf_wave _ W). apply (in_map fst). exact Hp.
+Qed.
+Lemma bin_exact_line s c e al be h : wf s -> wave s <> [] -> (2 <= length c)%nat ->
+  (forall a y, In (a, y) (samples s) -> y = al * a + be) ->
+  ((forall t, In t (bin_edges_trapz e c) -> hd 0 (wave s) <= t /\ t <= last (wave s) 0) ->
+   raw_bins s c Trapz e = Ok (line_bins al be (bin_edges_trapz e c))) /\
+  (uniform_step h c -> (forall t, In t (bin_nodes_simps e c) -> hd 0 (wave s) <= t /\ t <= last (wave s) 0) ->
+   raw_bins s c Simps e = Ok (line_bins2 al be (bin_nodes_simps e c))).
+Proof.
+  intros W Hn L H. split.
+  - intros Hx. apply (raw_bins_line s c Trapz e al be W Hn L H Hx). discriminate.
+  - intros U Hx. apply (raw_bins_line s c Simps e al be W Hn L H Hx). intros _. eapply bin_nodes_midpointed; eauto.
+Qed.
+
+(* concrete witnesses *)
+Definition qq (n d : Z) : Qc := Q2Qc (n # Z.to_pos d).
+Lemma wf_by_check w v : wave_check w = Ok w -> length w = length v -> wf (mkSp w v).
+Proof. intros H L. apply wave_check_ok in H. destruct H as (_ & I & P). repeat split; auto. Qed.
+Lemma resample_bad_grid_witness :
+  let sp := mkSp [qq 1 1; qq 2 1; qq 4 1] [qq 1 1; qq 3 1; qq 7 1] in
+  wf sp /\
+  (let r := resample sp [qq 3 1; qq 2 1; qq 1 1; qq 1 2] in
+   snd r = Some ValueError /\ length (wave (fst r)) = 3%nat /\ length (value (fst r)) = 4%nat) /\
+  (let r := resample sp [qq 4 1; qq 2 1; qq 1 1] in
+   snd r = Some ValueError /\ wave (fst r) = wave sp /\
+   lookup (samples sp) (qq 1 1) = Some (qq 1 1) /\ lookup (samples (fst r)) (qq 1 1) = Some (qq 7 1)).
+Proof.
+  split; [apply wf_by_check; reflexivity|]. split; vm_compute; repeat split; reflexivity.
+Qed.
+Fixpoint leqb (l1 l2 : list Qc) : bool :=
+  match l1, l2 with [], [] => true | a :: t, b :: u => qeqb a b && leqb t u | _, _ => false end.
+Lemma leqb_eq l1 l2 : leqb l1 l2 = true -> l1 = l2.
+Proof.
+  revert l2. induction l1; destruct l2; simpl; intros H; try discriminate; auto.
+  apply andb_prop in H. destruct H as [H1 H2]. qb. subst. f_equal. auto.
+Qed.
+Ltac qc_eval := apply qeqb_iff; vm_compute; reflexivity.
+Ltac qcl_eval := apply leqb_eq; vm_compute; reflexivity.
+(* evaluate [f args = Ok q] / [= Ok (Some l)] / a spectrum, comparing rationals by value (the canonicity proofs inside
+   two equal Qc need not be syntactically equal) *)
+Ltac res_q := match goal with |- ?l = Ok _ => let v := eval vm_compute in l in
+  match v with Ok ?y => transitivity (Ok y); [vm_compute; reflexivity | f_equal; qc_eval] end end.
+Ltac res_l := match goal with |- ?l = Ok (Some _) => let v := eval vm_compute in l in
+  match v with Ok (Some ?y) => transitivity (Ok (Some y)); [vm_compute; reflexivity | do 2 f_equal; qcl_eval] end end.
+Lemma integrate_truncation_witness :
+  let sp := mkSp [qq 1 1; qq 2 1; qq 3 1; qq 4 1] [qq 1 1; qq 1 1; qq 1 1; qq 1 1] in
+  wf sp /\
+  integrate sp (Some (qq 3 2)) (Some (qq 7 2)) Trapz = Ok (qq 1 1) /\
+  pl_integral (samples sp) (qq 3 2) (qq 7 2) = qq 2 1 /\
+  bin sp [qq 3 2; qq 5 2; qq 7 2] Trapz Inside false = Ok (Some [qq 1 2; qq 1 1; qq 1 2]) /\
+  bin sp [qq 3 2; qq 5 2; qq 7 2] Trapz Inside true = Ok (Some [qq 1 4; qq 1 2; qq 1 4]).
+Proof.
+  split; [apply wf_by_check; reflexivity|]. split; [|split; [|split]].
+  - res_q.
+  - qc_eval.
+  - res_l.
+  - res_l.
+Qed.
+Fixpoint nbrb (s : spectrum) (ops : list op) : bool :=
+  match ops with
+  | [] => true
+  | o :: t => (match o with OResample _ => match snd (exec s o) with None => true | Some _ => false end | _ => true end)
+              && nbrb (fst (exec s o)) t
+  end.
+Lemma nbrb_ok ops : forall s, nbrb s ops = true -> no_bad_resample s ops.
+Proof.
+  induction ops as [|o t IH]; intros s H; simpl in *; auto. apply andb_prop in H. destruct H as [H1 H2].
+  split; auto. destruct o; simpl in *; auto. intros K. apply K. destruct (snd (resample s g)); [discriminate | reflexivity].
+Qed.
+Lemma spectrum_eq a b : leqb (wave a) (wave b) && leqb (value a) (value b) = true -> a = b.
+Proof. intros H. apply andb_prop in H. destruct H as [H1 H2]. apply leqb_eq in H1, H2. destruct a, b; simpl in *; congruence. Qed.
+Lemma nonvacuous_example :
+  let spx := mkSp [qq 1 1; qq 3 2; qq 5 2; qq 9 2; qq 5 1] [qq 0 1; qq 2 1; qq 4 1; qq 1 1; qq 0 1] in
+  let opsx := [OTrim (qq 1 8); OPad (qq 1 2) (qq 11 2) None PadEdge; OPad (qq 3 1) (qq 6 1) None (PadConst 0 0);
+               OCrop (qq 1 1) (qq 9 2); OAppend (mkSp [qq 6 1] [qq 3 1]); OResample [qq 1 1; qq 2 1; qq 5 2; qq 6 1; qq 7 1]] in
+  wf spx /\ Forall op_ok opsx /\ no_bad_resample spx opsx /\
+  map snd (trace spx opsx) = [None; None; Some ValueError; None; None; None] /\
+  run spx opsx = mkSp [qq 1 1; qq 2 1; qq 5 2; qq 6 1; qq 7 1] [qq 0 1; qq 3 1; qq 4 1; qq 3 1; qq 0 1] /\
+  integrate spx (Some (qq 3 2)) (Some (qq 9 2)) Trapz = Ok (qq 8 1) /\
+  pl_integral (samples spx) (qq 3 2) (qq 9 2) = qq 8 1 /\
+  bin spx [qq 3 2; qq 5 2; qq 9 2] Trapz Inside true = Ok (Some [qq 80 57; qq 88 19; qq 112 57]).
+Proof.
+  intros spx opsx. split; [apply wf_by_check; reflexivity|].
+  split; [repeat constructor|]. split; [apply nbrb_ok; vm_compute; reflexivity|].
+  split; [vm_compute; reflexivity|]. split; [apply spectrum_eq; vm_compute; reflexivity|].
+  split; [res_q|]. split; [qc_eval | res_l].
 Qed.
